@@ -155,8 +155,17 @@ def scalar_forms(v, k=0):
     if isinstance(v, (bool, np.bool_)):
         return [np.bool_(v), bool(v)][k % 2]
     if isinstance(v, (int, np.integer)):
-        return [np.int64(v), np.int32(v), np.array(v, dtype=np.int64), int(v)][k % 4]
-    return [np.float64(v), np.array(float(v)), float(v)][k % 3]
+        forms = [np.int64(v), np.int32(v), np.array(v, dtype=np.int64), int(v)]
+        if -2 ** 15 <= int(v) < 2 ** 15:
+            forms.append(np.int16(v))
+        return forms[k % len(forms)]
+    forms = [np.float64(v), np.array(float(v)), float(v)]
+    fv = float(v)
+    if np.isfinite(fv) and float(np.float32(fv)) == fv:
+        forms.append(np.float32(fv))          # exactly the same number in single precision
+    if np.isfinite(fv) and fv == int(fv) and abs(fv) < 2 ** 31:
+        forms += [int(fv), np.int64(int(fv))]
+    return forms[k % len(forms)]
 
 
 def _first_diff(a, b):
